@@ -1,0 +1,15 @@
+//go:build verif
+
+// Package verifhook lets an external verification harness observe the
+// instants directly after a durable write. It is inert unless the binary is
+// built with the `verif` tag AND a callback is installed.
+package verifhook
+
+// Fn is installed by the harness. It is called synchronously.
+var Fn func(label string)
+
+func Point(label string) {
+	if Fn != nil {
+		Fn(label)
+	}
+}
